@@ -485,6 +485,10 @@ pub fn exec_expect(line: &str, expect: Option<bool>, rec: &mut Recorder) {
         e2e::exec(&t, line, rec);
         return;
     }
+    if t.first() == Some(&"h1") {
+        e2e::exec_h1(&t, line, rec);
+        return;
+    }
     if t.first() == Some(&"tam") {
         e2e::exec_tamper(&t, line, rec);
         return;
